@@ -15,6 +15,8 @@ pub struct Session {
     pub ever_off: bool,
     pub cons_on: bool,
     pub history: Vec<String>,
+    /// the parent links of the real forest form a cycle: nothing traverses it any more
+    pub cyclic: bool,
 }
 
 fn res_str(r: Option<Result<(), Error>>) -> String {
@@ -39,7 +41,7 @@ impl Session {
     pub fn new() -> Self {
         let mut xot = Xot::new();
         let vocab = Vocab::standard(&mut xot);
-        Session { xot, vocab, nodes: vec![], label: HashMap::new(), ever_off: false, cons_on: true, history: vec![] }
+        Session { xot, vocab, nodes: vec![], label: HashMap::new(), ever_off: false, cons_on: true, history: vec![], cyclic: false }
     }
 
     /// consolidation is on unless a `cons 0` request switched it off (tracked by the session)
@@ -48,7 +50,38 @@ impl Session {
     }
 
     pub fn live(&self) -> Vec<usize> {
+        if self.cyclic {
+            // every generator loop ends when nothing is live
+            return vec![];
+        }
         (0..self.nodes.len()).filter(|&l| !self.xot.is_removed(self.nodes[l])).collect()
+    }
+
+    /// Does walking up from some known node fail to reach a root within as many steps as there are
+    /// nodes?  (C04: "parent, child and sibling relations are mutually consistent and acyclic";
+    /// seed C04g.)  Uses `parent` only, so it terminates on any store.
+    fn detect_cycle(&self) -> bool {
+        let bound = self.xot_node_bound();
+        for &n in &self.nodes {
+            if self.xot.is_removed(n) {
+                continue;
+            }
+            let mut cur = n;
+            let mut steps = 0usize;
+            while let Some(p) = self.xot.parent(cur) {
+                cur = p;
+                steps += 1;
+                if steps > bound {
+                    return true;
+                }
+            }
+        }
+        false
+    }
+
+    fn xot_node_bound(&self) -> usize {
+        // nodes the session knows plus a generous allowance for nodes created inside calls
+        4 * self.nodes.len() + 64
     }
 
     fn ordered_roots(&self, extra: Option<Node>) -> Vec<Node> {
@@ -103,6 +136,9 @@ impl Session {
     }
 
     pub fn dump(&mut self) -> String {
+        if self.cyclic {
+            return "CORRUPT".into();
+        }
         let mut parts = vec![];
         for r in self.ordered_roots(None) {
             let edges: Vec<NodeEdge> = self.xot.all_traverse(r).collect();
@@ -163,6 +199,27 @@ impl Session {
 
     /// Execute one request on the real Xot; returns the response.
     pub fn exec(&mut self, sink: &mut Sink, req: &str) -> String {
+        if self.cyclic {
+            // the store is beyond repair; answer what the model's corrupt sink answers to reads and
+            // leave everything else alone
+            let resp = match req.split(' ').next().unwrap_or("") {
+                "dump" => "CORRUPT".to_string(),
+                "inv" => "0".to_string(),
+                _ => "cyclic-store".to_string(),
+            };
+            self.emit(sink, req.to_string(), resp.clone());
+            return resp;
+        }
+        let resp = self.exec_inner(sink, req);
+        let first = req.split(' ').next().unwrap_or("");
+        if !matches!(first, "dump" | "inv" | "removed" | "map_read" | "reset" | "cons" | "new") && self.detect_cycle() {
+            self.cyclic = true;
+            sink.fail("C04", &format!("C04:{}:parent-links-form-a-cycle", first), &format!("after {} (answer {}): walking up the parent links from a live node never reaches a root", req, resp), &self.history);
+        }
+        resp
+    }
+
+    fn exec_inner(&mut self, sink: &mut Sink, req: &str) -> String {
         let w: Vec<&str> = req.split(' ').collect();
         let n = |s: &Session, i: usize| s.nodes[w[i].parse::<usize>().unwrap()];
         let mut returned: Option<Node> = None;
@@ -369,6 +426,9 @@ impl Session {
     // C04 oracle: structural validity of everything reachable
 
     pub fn validate(&self) -> Option<String> {
+        if self.cyclic {
+            return Some("parent links form a cycle".into());
+        }
         for r in self.ordered_roots(None) {
             if self.xot.parent(r).is_some() {
                 return Some("root has a parent".into());
